@@ -149,6 +149,22 @@ def run(ctx):
                 V('recorded-block-refused', "reference validator flags recorded block %d: %s" % (h, sorted(tags)), {'k': 'rec'})
             parent = world.Node(b, parent, path=(str(h),))
         distinct += 1
+    # the same recorded blocks must stay valid when the node's head is on ANOTHER branch: a competing block at height 1
+    # arrived first (it is added unvalidated - it is only there to be the head), then the real blocks 1..5 in order
+    if all(b is not None for b in blocks):
+        rival = cand_block(1, blocks[0].hash(), blocks[1].timestamp - 1, target=blocks[0].target)
+        cs2 = CoinState.zero().add_block_no_validation(rival)
+        for (h, hexid, raw), b in list(zip(recorded, blocks))[1:]:
+            n += 1
+            try:
+                cs2 = cs2.add_block(b, b.timestamp)
+            except Exception as e:
+                V('recorded-block-refused', "recorded block %d fails full validation when a competing block at height 1 arrived "
+                  "first (head on the other branch): %r" % (h, e), {'k': 'rec'})
+                break
+        else:
+            if cs2.head().hash().hex() != recorded[-1][1]:
+                V('recorded-chain-not-head', "after the recorded blocks 1..5 the head is not recorded block 5", {'k': 'rec'})
     # a wrong scrypt answer must be noticed (the evidence really is recomputed): flip one bit of block 1's evidence
     if len(blocks) > 1 and blocks[1] is not None:
         from skepticoin.datatypes import BlockHeader, PowEvidence
